@@ -37,6 +37,9 @@ pub enum Val {
     FailEnc,
     /// writes two bytes into the encoder, then fails
     PartialFail,
+    /// encodes successfully to zero bytes (as `()`-like marker types with a hand-written impl do): a frame with an
+    /// empty payload, i.e. the four prefix bytes 00 00 00 00 and a returned length of 0
+    Nothing,
 }
 
 impl<C> Encode<C> for Val {
@@ -48,6 +51,7 @@ impl<C> Encode<C> for Val {
                 e.array(2)?.u8(1)?;
                 Err(encode::Error::message("verif: value fails half-way"))
             }
+            Val::Nothing => Ok(()),
         }
     }
 }
@@ -59,12 +63,14 @@ impl Val {
             Val::Arr(v) => format!("{:?}", v),
             Val::FailEnc => "FailEnc".into(),
             Val::PartialFail => "PartialFail".into(),
+            Val::Nothing => "Nothing".into(),
         }
     }
     /// model: payload bytes (independent reference encoding of an array of small u8)
     fn payload(&self) -> Option<Vec<u8>> {
         match self {
             Val::Arr(v) => Some(array_payload(v)),
+            Val::Nothing => Some(Vec::new()),
             _ => None,
         }
     }
@@ -402,7 +408,7 @@ pub fn run_once(sc: &Scenario, lim: Limits, ch: SharedChooser, obs_out: &mut Opt
 }
 
 pub fn scenarios(tier: Tier) -> (Vec<Scenario>, Limits, String) {
-    let vals = vec![Val::Arr(vec![5]), Val::Arr(vec![]), Val::Arr(vec![1, 2]), Val::FailEnc, Val::PartialFail];
+    let vals = vec![Val::Arr(vec![5]), Val::Arr(vec![]), Val::Arr(vec![1, 2]), Val::FailEnc, Val::PartialFail, Val::Nothing];
     let (max_vals, lim) = match tier {
         Tier::Quick => (2, Limits { p: 1, e: 1, d: 2, z: 1, b: 3 }),
         Tier::Thorough => (2, Limits { p: 2, e: 2, d: 2, z: 1, b: 4 }),
@@ -490,7 +496,7 @@ pub fn scenarios(tier: Tier) -> (Vec<Scenario>, Limits, String) {
     // largest scenarios first so that the dynamic sharding balances
     out.sort_by_key(|s: &Scenario| std::cmp::Reverse(s.values.iter().map(|v| v.payload().map(|p| p.len() + 4).unwrap_or(0)).sum::<usize>()));
     let bound = format!(
-        "0..={} values over {} value kinds (3 encodable arrays of 5..7 frame bytes, 2 failing encoders), max_len in {{default, 2, 3}}, plus values with payloads of 255..65537 bytes and of 512 KiB / 512 KiB + 1 (the default maximum; deviation budget 2) (writes of more than 32 bytes accepted whole or, as one deviation each, 1 / half / all-but-one bytes); AsyncWriter::new and ::with_buffer(recycled buffer: stale bytes / spare capacity / 640 KiB of capacity); set_max_len lowered / raised after a value on a used writer (11 scenarios); limits 600000 (with values of 512 KiB and 512 KiB + 1) and 2^31-1 .. u32::MAX; set_max_len(0)+restore and flush() while a frame is in flight (with_buffer scenarios); sink: all accept sizes (free), <= {} consecutive Pending, <= {} transient errors, <= {} zero-length accepts; caller: <= {} dropped write/sync futures; total deviation budget {}",
+        "0..={} values over {} value kinds (3 encodable arrays of 5..7 frame bytes, 2 failing encoders, 1 value that encodes to zero bytes), max_len in {{default, 2, 3}}, plus values with payloads of 255..65537 bytes and of 512 KiB / 512 KiB + 1 (the default maximum; deviation budget 2) (writes of more than 32 bytes accepted whole or, as one deviation each, 1 / half / all-but-one bytes); AsyncWriter::new and ::with_buffer(recycled buffer: stale bytes / spare capacity / 640 KiB of capacity); set_max_len lowered / raised after a value on a used writer (11 scenarios); limits 600000 (with values of 512 KiB and 512 KiB + 1) and 2^31-1 .. u32::MAX; set_max_len(0)+restore and flush() while a frame is in flight (with_buffer scenarios); sink: all accept sizes (free), <= {} consecutive Pending, <= {} transient errors, <= {} zero-length accepts; caller: <= {} dropped write/sync futures; total deviation budget {}",
         max_vals, vals.len(), lim.p, lim.e, lim.z, lim.d, lim.b
     );
     (out, lim, bound)
@@ -578,6 +584,7 @@ pub fn replay_case(case: &serde_json::Value) -> Result<(), String> {
         .map(|x| match x.as_str().unwrap() {
             "FailEnc" => Val::FailEnc,
             "PartialFail" => Val::PartialFail,
+            "Nothing" => Val::Nothing,
             s if s.starts_with("big") => {
                 let n: usize = s[3..].parse().unwrap();
                 Val::Arr(large_frames().into_iter().find(|f| f.value.as_ref().unwrap().len() == n).unwrap().value.unwrap())
